@@ -246,6 +246,18 @@ theorem pow_glue (n : Nat) (A V W : FMat ℝ) (lam : Nat → ℝ) (k : Nat)
   rw [h2, eq_conj_of_eigen _ _ _ _ hAV hVW, conj_pow _ _ _ hVW]
   simp only [ScalarReal.pow_eq, Real.rpow_natCast]
 
+/-- symmetric route: with an orthonormal `V` the inverse is the transpose, so
+`V · diag(λ^k) · Vᵀ = A^k`; this is the statement for the output of tred2/tql2 -/
+theorem pow_glue_orthonormal (n : Nat) (A V : FMat ℝ) (lam : Nat → ℝ) (k : Nat)
+    (hAV : toMatrix n A * toMatrix n V = toMatrix n V * Matrix.diagonal (fun i : Fin n => lam i))
+    (horth : (toMatrix n V).transpose * toMatrix n V = 1) :
+    ∃ O, powGlue n n V lam (fun i j => V j i) (k : ℝ) = .ok O ∧ toMatrix n O = toMatrix n A ^ k := by
+  have hW : toMatrix n (fun i j => V j i) = (toMatrix n V).transpose := by
+    ext i j; simp [toMatrix, Matrix.transpose_apply]
+  apply pow_glue n A V _ lam k hAV
+  rw [hW]
+  exact mul_eq_one_comm.mp horth
+
 /-- real exponents, positive spectrum: the results form a one-parameter group through `A`
 (`O_p · O_q = O_{p+q}`, `O_1 = A`, `O_0 = 1`), which is what "real matrix power" means; in
 particular `O_{-1}` is the inverse and `O_{1/2}` a square root of `A`. -/
